@@ -185,7 +185,8 @@ reg("C14",
 
 # generator / oracle widenings of the sixth sensitivity round (DESIGN.md I.14), appended to the texts above
 ADD6 = {
-    "C02": " Also: decoder histories (a well-formed stream decoded after one decoder has refused malformed input up to 420 times, or after an earlier decoded result was edited in place) and a first-use sweep (two threads make the first decodes of a fresh interpreter, one parked mid-way).",
+    "C01": " Also: flags set through the flag-bit API (accepted calls change exactly that bit, refused calls nothing) and a strided mid-call concurrency sweep over building + serialising (same bytes as alone).",
+    "C02": " Also: a strided mid-call concurrency sweep over decoding (same result as alone); decoder histories (a well-formed stream decoded after one decoder has refused malformed input up to 420 times, or after an earlier decoded result was edited in place) and a first-use sweep (two threads make the first decodes of a fresh interpreter, one parked mid-way).",
     "C03": " Also: a CPU-time bound (ITIMER_VIRTUAL) for time spent below the interpreter, DiameterURI texts that go wrong late, and histories of refused inputs fed to one decoder; live inputs are pre-judged by the decoder oracle.",
     "C04": " Also: segments cut exactly at plausible read sizes (4096 / 65536 / 262144 bytes with nothing pending), T-flagged messages and repeated End-to-End / Hop-by-Hop identifiers.",
     "C05": " Also: long send_messages() lists (31..257 messages) and a sweep with the state machine thread paused inside the drain of the send queue while the same submitter hands over an answer / a request.",
